@@ -84,6 +84,11 @@ BASE_A = [  # reference unit, SI prefixes, equal-scale units spelled differently
     ('#[unit(Pound_Like, "µΩ", 0.45359237)]', None),
     ('#[unit(Also_One, "one", 1)]', None),
     ('#[unit(HalfUnit, "½", 0.5)]', None),
+    # neighbouring scales far from one: an approximate comparator would merge them
+    ('#[unit(Ten_Atto, "ta", 1e-17)]', None),
+    ('#[unit(Atto_Like, "al", 1e-18)]', None),
+    ('#[unit(Big_Next, "BN", 100000000000000016.0)]', None),
+    ('#[unit(Big_Round, "BR", 1e17)]', None),
 ]
 BASE_B = [('#[unit(Zeta_Unit, "z")]', None), ('#[unit(Alpha, "α", "first by name")]', None), ('#[unit(Mid_Unit, "m")]', None), ('#[unit(Beta, "β")]', None)]
 BASE_C = [('#[unit(Only_One, "1")]', None)]
@@ -224,6 +229,44 @@ def macro_structure(ctx):
     ctx.ob("macro-stable-sort", "analyze", bool(sorts) and all("unstable" not in p for p in sorts) and all(p.startswith("alloc::slice::<impl [T]>::sort_by") for p in sorts),
            "analyze() orders the units with %s: the declaration order of equal-scale units is only preserved by the stable slice sort" % sorts,
            "qty-macros/src/quantity_attr_helper.rs (analyze)")
+    # the comparators handed to the sort are exact orderings of one key of each element
+    from . import term as T, thirwalk
+    ab = c.bodies.get("qty_macros::quantity_attr_helper::analyze")
+    sort_calls = thirwalk.calls(ab["value"], lambda f: f["name"] in ("sort_by", "sort_by_key", "sort_by_cached_key", "sort")) if ab else []
+    ctx.ob("macro-sort-calls", "analyze", len(sort_calls) == 2, "analyze() contains %d sort calls, expected one per code path (by scale / by name)" % len(sort_calls),
+           ab and ab["span"])
+    U = model.Universe(fs, [c])
+    for i, sc_ in enumerate(sort_calls):
+        clos = [a for a in sc_["args"] if model.peel(a) and model.peel(a)["k"] == "closure"]
+        inst = "analyze/sort#%d" % i
+        if len(clos) != 1:
+            ctx.fail("macro-comparator", inst, "sort call without a closure comparator", sc_.get("sp"))
+            continue
+        cdef = model.peel(clos[0])["def"]
+        ev = T.Evaluator(U, keep_tags=False, max_depth=0)
+        A, B = ("p", 1, "a"), ("p", 2, "b")
+        try:
+            outs = ev.summarize_closure(("closure", cdef, ()), [A, B])
+        except T.Unsupported as x:
+            ctx.fail("macro-comparator", inst, "unsupported construct in the sort comparator: " + x.what, x.sp or sc_.get("sp"))
+            continue
+        desc = "; ".join("[%s] %s" % (T.show_guard(g), T.show(T.canon(t))) for g, k, t in outs)
+        ok = False
+        if len(outs) == 1 and not outs[0][0] and outs[0][1] == "val":
+            t = outs[0][2]
+            if t[0] == "unwrap":
+                t = t[1]
+            pair = None
+            if t[0] == "pcmp":
+                pair = (t[1], t[2])
+            elif t[0] == "app" and t[1].endswith("::cmp") and len(t[3]) == 2:
+                pair = (t[3][0], t[3][1])
+            if pair:
+                from .rules_c02 import subst
+                ok = T.canon(subst(pair[0], {A: B})) == T.canon(pair[1]) and A in flatten(pair[0]) and B not in flatten(pair[0])
+        ctx.ob("macro-comparator", inst, ok,
+               "the sort comparator is not an exact ordering `key(a).cmp(key(b))` of one key (observed: %s): units whose keys differ may compare equal or order-dependent" % desc,
+               sc_.get("sp"))
     cg = c.mir.get("qty_macros::quantity_attr_helper::codegen")
     if cg is None:
         raise ModelError("anchor", "qty_macros::quantity_attr_helper::codegen not found")
@@ -232,6 +275,19 @@ def macro_structure(ctx):
            "codegen() selects among %s" % gens, "qty-macros/src/quantity_attr_helper.rs (codegen)")
     sc = c.bodies.get("qty_macros::quantity_attr_helper::codegen_fn_scale")
     ctx.ob("macro-anchor", "codegen_fn_scale", sc is not None, "codegen_fn_scale not found", None, nontrivial=False)
+
+
+def flatten(t, acc=None):
+    acc = acc if acc is not None else []
+    if isinstance(t, tuple):
+        acc.append(t)
+        for x in t[1:]:
+            if isinstance(x, tuple):
+                flatten(x, acc)
+                if x and isinstance(x[0], tuple):
+                    for y in x:
+                        flatten(y, acc)
+    return acc
 
 
 def run(ctx):
